@@ -61,5 +61,25 @@ def updateKeysMatch (t : ClassTable) : Bool :=
 def wellFormed (t : ClassTable) : Bool :=
   readCovers t && writeCovers t && flagsStored t && updateCovers t && updateKeysMatch t
 
+/-! ### which class reads which stored bound (`Sampler.__init__`, resume block)
+
+  `Sampler.write` stores `bounds[i]` under `bound_i` through the `write` of its own class, which records the class in
+  `attrs['type']`.  `bounds[0]` is the unit cube as long as its shell exists; the end of exploration removes empty shells,
+  the cube's included (`Core.endExploration`), after which `bounds[0]` is a `NautilusBound`. -/
+
+inductive Kind | cube | nautilus
+deriving Repr, DecidableEq
+
+/-- the class tags a full write stores, in order -/
+def storeKinds (ks : List Kind) : List Kind := ks
+
+/-- the resume path as first found: `bound_0` through `UnitCube.read`, every other through `NautilusBound.read` -/
+def loadKindsByPosition (tags : List Kind) : List Kind :=
+  (tags.zipIdx).map (fun ti => if ti.2 == 0 then Kind.cube else Kind.nautilus)
+
+/-- the resume path that dispatches on the stored tag: `UnitCube.read` iff `attrs['type'] == 'UnitCube'` -/
+def loadKindsByTag (tags : List Kind) : List Kind :=
+  tags.map (fun t => if t == Kind.cube then Kind.cube else Kind.nautilus)
+
 end Persist
 end NautilusVerif
